@@ -375,6 +375,18 @@ Definition event_end (i : bytes) (g : N) (r : keyreq) : list op :=
     end
   else [].
 
+(* ---- the disconnected-events poll as a suspendable operation ---------------------
+   BlePairing._async_process_disconnected_events: awaits _process_disconnected_events_with_retry
+   (connect, read the protocol parameters and the subscribed values); advertisements can be
+   delivered while it hangs in the connection attempt.  On success the accessory's number n is
+   written (_update_state_num n); when it fails (AccessoryDisconnectedError, Bleak errors,
+   AccessoryNotFoundError) it is logged and NOTHING is written - in particular numbers accepted
+   from broadcasts in the meantime stay accepted. *)
+Inductive pollres := PollOk (n : N) | PollFail.
+Definition poll_begin (i : bytes) : list op := [].
+Definition poll_end (i : bytes) (r : pollres) : list op :=
+  match r with PollOk n => [OUpdate i n] | PollFail => [] end.
+
 (* ---- outside the property's quantifier: the plain (type 0x06) advertisement ----
    A well-formed regular advertisement for id i with an unchanged config number
    replaces the description, hence the stored state number, by the advertised one
